@@ -92,6 +92,10 @@ def cases(tier, seed):
         for name in ERRPROGS:
             for pol in POLICIES:
                 yield {"kind": "err", "prog": name, "file": pat, "policy": pol}
+                if len(pat) <= 2:
+                    # a validation-mode comment that names a stop word only: the fail decision still comes from the policy
+                    for vm in ("no-stop", "stop"):
+                        yield {"kind": "err", "prog": name, "file": pat, "policy": pol, "vm": vm}
     # "a run starts valid": a second run on the SAME CsvPaths instance after a run in which fail()/fail_all()/fail_and_stop() executed
     for first in ("failall", "failk", "fas"):
         for m1 in groups.METHODS:
@@ -133,12 +137,16 @@ def run_case(case):
         pat, pol = case["file"], case["policy"]
         rows = [list(ROWS[ch]) + ([str(i)] if ch != "b" else []) for i, ch in enumerate(pat)]
         comps = _comps(case)
-        it = refinterp.Interp(comps, True, policy=pol or ["quiet"])
+        vm = case.get("vm")
+        eff = [f for f in pol if f != "stop"] + (["stop"] if (vm == "stop" or (vm is None and "stop" in pol)) else [])
+        it = refinterp.Interp(comps, True, policy=eff or ["quiet"])
         ret = it.run(rows, set(range(len(rows))), None)
         path = sandbox.write_csv(rows)
         text = f"${path}[*]{refinterp.render_match(comps)}"
+        if vm:
+            text = f"~ validation-mode: {vm} ~ " + text
         o = run.run_csvpath(text, policy=pol or ["quiet"])
-        cstr = f"file={pat!r} policy={','.join(pol) or '-'} match={refinterp.render_match(comps)}"
+        cstr = f"file={pat!r} policy={','.join(pol) or '-'}{' validation-mode=' + vm if vm else ''} match={refinterp.render_match(comps)}"
         if o["exc"]:
             bad("exception", o["exc"], None, cstr)
         else:
